@@ -24,6 +24,9 @@ type c02PrefixCase struct {
 
 var c02LibBases = []string{"string", "int32", "boolean", "uint8"}
 
+// prefixes the files choose from; two of them are also the names of libraries (a prefix may be any identifier)
+var c02Prefixes3 = []string{"p", "q", "lib0", "lib1"}
+
 func (c c02PrefixCase) files() (string, map[string]string, map[string]string) {
 	files := map[string]string{}
 	for i, b := range c02LibBases {
@@ -73,20 +76,20 @@ func (c c02PrefixCase) files() (string, map[string]string, map[string]string) {
 
 var c02Prefixes = hx.Register(&hx.Check[c02PrefixCase]{
 	Name: "c02-prefix-per-file",
-	Rule: "a module and one or two submodules (the second included by the module or by the first), each importing one to three of four libraries under prefixes drawn from {p, q, r}, so that files use the same prefix for different libraries; every library defines typedef tx with another base; every file has a leaf of type <prefix>:tx per import; loaded three times: each leaf has the base of tx in the library that its own file's import binds the prefix to, every time; non-trivial = two files bind one prefix to different libraries",
+	Rule: "a module and one or two submodules (the second included by the module or by the first), each importing one to three of four libraries under prefixes drawn from {p, q, lib0, lib1} (two of them are names of libraries as well), so that files use the same prefix for different libraries; every library defines typedef tx with another base; every file has a leaf of type <prefix>:tx per import; loaded three times: each leaf has the base of tx in the library that its own file's import binds the prefix to, every time; non-trivial = two files bind one prefix to different libraries",
 	Gen: func(t *rapid.T) c02PrefixCase {
 		var c c02PrefixCase
 		nf := rapid.IntRange(2, 3).Draw(t, "files")
 		for f := 0; f < nf; f++ {
 			imp := map[string]int{}
-			for _, p := range []string{"p", "q", "r"} {
+			for _, p := range c02Prefixes3 {
 				if rapid.IntRange(0, 2).Draw(t, fmt.Sprintf("f%d-%s?", f, p)) > 0 {
 					imp[p] = rapid.IntRange(0, len(c02LibBases)-1).Draw(t, fmt.Sprintf("f%d-%s", f, p))
 				}
 			}
 			// a library is imported once per file
 			seen := map[int]bool{}
-			for _, p := range []string{"p", "q", "r"} {
+			for _, p := range c02Prefixes3 {
 				if l, ok := imp[p]; ok {
 					if seen[l] {
 						delete(imp, p)
